@@ -317,6 +317,42 @@ def check_serde(ctx, rep):
             else:
                 rep.violated(key, "a field skipped on output must have #[serde(default)] to be read back",
                              why="%s.%s: %s" % (fa["item"], fa["field"], attrs))
+    # (iv) custom field serialisers write a float computed from the field by float arithmetic only
+    seen_fn = set()
+    for fa in lib.facts["field_attrs"]:
+        m = re.search(r'serialize_with\s*=\s*"([^"]+)"', " ".join(fa["attrs"]))
+        if not m or m.group(1) in seen_fn:
+            continue
+        fn = m.group(1)
+        seen_fn.add(fn)
+        key = "C17/X4/serialize_with/%s" % fn.split("::")[-1]
+        b = ctx.find_public_fn(lib, fn.split("::")[-1], must=False)
+        if b is None:
+            rep.violated(key, "custom field serialisers are analysable", why="function %s not found" % fn)
+            continue
+        ev, r, args = ctx.eval_entry("lib", b)
+        x = args[0]
+        calls = [t for t in tm.subterms(r) if t.op == "call" and "serialize_" in str(t.a[0])]
+        bad = None
+        if len(calls) != 1:
+            bad = "expected exactly one serializer call, found %d" % len(calls)
+        else:
+            c = calls[0]
+            if not str(c.a[0]).endswith(("serialize_f32", "serialize_f64")):
+                bad = "a float field is written with %s" % str(c.a[0]).split("::")[-1]
+            val = c.a[-1]
+            for t in tm.subterms(val):
+                if t is x or t.op in ("num", "mul", "div", "round", "add", "sub", "neg", "abs", "deref", "ref"):
+                    continue
+                bad = "the value written passes through '%s' (%s): not float-only arithmetic, so large or non-finite-range values are altered" \
+                      % (t.op, tm.show(t, 2)[:80])
+                break
+            if bad is None and x not in tm.free_syms(val):
+                bad = "the value written does not depend on the field"
+        if bad:
+            rep.violated(key, "numbers in the JSON document are the computed values (rounded), for every magnitude", construct=loc_of(b), why=bad)
+        else:
+            rep.discharged(key, "%s writes round-to-decimals of the field using float arithmetic only (no integer cast, no clamp)" % fn)
     rep.floor("serde-types", n, 15)
 
 
